@@ -113,7 +113,7 @@ def run_case(case):
     tp = 2 * math.pi
     dz = case['dz']
     # a torus whose circumference is the z period: the field line turns by 2*pi*iota/nz per cell
-    c.R0 = nz * dz / tp
+    c.R0 = nz * dz / tp * (1.7 if (nq + nz) % 2 else 1.0)          # full torus for half of the sizes, a z period unrelated to R0 for the others
     R0 = c.R0
     bth = ops.mkspace(nq, 0.0, tp, deg, True, kind == 'cu', warp)
     S = refspline.RefSpace(bth)
